@@ -93,7 +93,8 @@ DimDown == {"remove_dims", "remove_higher", "fold"}
 DimOther == {"unconstrain", "unconstrain_set", "map_dims"}
 AllOps == CtorOps \cup UnObs \cup VarObs \cup ExprObs \cup BinObs \cup ConOps \cup ConsOps \cup GenOps \cup GensOps \cup CgOps \cup CgsOps
           \cup BinMut \cup WidOps \cup PoolOps \cup UnMut \cup ImgOps \cup LhsOps \cup DimUp \cup DimDown \cup DimOther
-DriverOps == {"min_constraints", "min_generators", "constraints", "generators", "add_generator", "add_constraint", "is_empty", "contains", "equals", "add_generators", "add_constraints"}
+\* (an affine image transforms both descriptions in place -- non-unit divisors, rows no longer normalized or sorted -- without minimizing anything)
+DriverOps == {"min_constraints", "min_generators", "constraints", "generators", "add_generator", "add_constraint", "is_empty", "contains", "equals", "add_generators", "add_constraints", "affine_image"}
 \* (dump / load is also a state driver: it rebuilds the element from text -- with divisor 16 above, from fractions below 1/10 as well)
 ShapeDrivers == {"min_constraints", "constraints", "add_constraint", "refine_with_constraint", "is_empty", "contains", "equals", "refine_with_constraints", "is_universe", "dumpload"}
 \* minimized_constraints() is the call that moves a weakly relational element into its reduced internal state: it is drawn half of the time
